@@ -3,11 +3,12 @@
 Decided by: spec/Engine.tla - state machine of the engine's session caches (reset / pre-parse /
 worklist loop with parse + check / lowering worklist / trace / fail), with the invariants
 NoStaleRead, CachesOfThisEpoch, OutputIndependent, OutcomeIndependent, LoweredOnlyNow model-checked by
-TLC over all histories of public calls (check / compile_function / compile) on a pool of 16 entry
+TLC over all histories of public calls (check / compile_function / compile) on a pool of 19 entry
 points (plain function, callers, failing type error and its caller, good and failing comptime
 functions, a comptime expression that calls a Guppy function, recursive capturing closure, generic function used twice, monomorphised function used at
 two instantiations, struct with method, overloaded function, nested loops, a loop whose long-named variables share block rows
-with generated temporaries, and a comptime function that pushes the session's %tmp counter past 10 and 100).
+with generated temporaries, a comptime function that pushes the session's %tmp counter past 10 and 100, comptime functions
+interrupted by KeyboardInterrupt / SystemExit after tracing side-effecting ops, and a function with result() effects).
 Binding (spec -> code): every history printed by TLC (exhaustive to length 2/3, simulated to length 12)
 is executed in one forked interpreter session (harness/eng_engine.py); after every call the outcome
 class and the projected engine state (ENGINE.parsed/checked/compiled key sets, worklists, DEF_STORE growth)
@@ -114,9 +115,12 @@ def run(ctx):
     procs = ctx.pick(12, 14)
     # 1. model + exhaustive histories
     cfg = ctx.pick("Engine.cfg", "Engine_thorough.cfg")
-    r, hists = histories_from(ctx, cfg, coverage=ctx.quick, timeout=ctx.pick(900, 3000), heap="6g")
+    r, hists = histories_from(ctx, cfg, coverage=ctx.quick, timeout=ctx.pick(900, 3000), heap="4g")
     if not ctx.quick:  # all length-2 histories over the full pool as well
         r2, h2 = histories_from(ctx, "Engine_full2.cfg", timeout=3000)
+        hists = hists + h2
+    else:  # every call of the full pool right after a compile interrupted by KeyboardInterrupt / SystemExit
+        r2, h2 = histories_from(ctx, "Engine_intr.cfg", timeout=900)
         hists = hists + h2
     if ctx.quick:
         for act in ("Start", "PreParse", "LoopPop", "ParseDef", "CheckDef", "LoopDone", "CompileDef", "CompileDone"):
@@ -162,8 +166,18 @@ def run(ctx):
     repeated = sum(1 for h in allh for i, st in enumerate(h)
                    if st["op"] != "check" and any(p["d"] == st["d"] and p["op"] != "check" for p in h[:i]))
     leaks = sum(1 for o in obs.values() if o.get("state", {}).get("tracing_active"))
-    if not (nontriv and after_fail and repeated and ndigest):
-        raise lib.Machinery(f"vacuous enumeration: nontrivial={nontriv} after_fail={after_fail} repeated={repeated}")
+    intr = ("raised:KeyboardInterrupt", "raised:SystemExit")
+    after_intr = sum(1 for h in allh for i, st in enumerate(h)
+                     if i > 0 and st["outcome"] == "ok" and st["op"] != "check" and any(p["outcome"] in intr for p in h[:i])
+                     and obs[tuple(E.label(x) for x in h[:i + 1])].get("outcome") == "ok")
+    intr_defs = sorted({st["d"] for h in allh for i, st in enumerate(h)
+                        if i > 0 and st["op"] != "check" and h[i - 1]["outcome"] in intr})
+    if not (nontriv and after_fail and repeated and ndigest and after_intr):
+        raise lib.Machinery(f"vacuous enumeration: nontrivial={nontriv} after_fail={after_fail} repeated={repeated} "
+                            f"compiles_compared_after_an_interrupted_compile={after_intr}")
+    missing = sorted(set(eng_pool.ENTRIES) - set(intr_defs))
+    if missing:
+        raise lib.Machinery(f"no history compiles {missing} right after an interrupted compile")
     ctx.coverage.update({
         "traces_validated_against_impl": len(allh),
         "evaluations": nsteps,
@@ -173,14 +187,16 @@ def run(ctx):
                 ">= 2 different definitions",
         "samples": [[E.label(st) for st in h] for h in (allh[len(allh) // 3], allh[-1])],
         "exhaustive": True,
-        "bounds": (f"all {nexh} histories of length 2 over 14 calls (7 core entry points x check/compile)"
+        "bounds": (f"all {nexh} histories: length 2 over 14 calls (7 core entry points x check/compile) + every one of the 38 "
+                    f"calls of the full pool after compile:ct_intr (KeyboardInterrupt) and after compile:ct_exit (SystemExit)"
                    if ctx.quick else
-                   f"all {nexh} histories: length 3 over 16 core calls (8 entry points x check/compile) + length 2 over all 34 calls (16 entry points "
-                   f"x check/compile + compile() on 2)") + f"; plus {len(sim)} random histories of length 12 over all 34 "
+                   f"all {nexh} histories: length 3 over 16 core calls (8 entry points x check/compile) + length 2 over all 40 calls (19 entry points "
+                   f"x check/compile + compile() on 2)") + f"; plus {len(sim)} random histories of length 12 over all 40 "
                   f"calls (seed {ctx.seed + 1})",
         "hugr_comparisons_with_fresh_process_reference": ndigest,
         "successful_compiles_after_an_earlier_failure": after_fail,
         "recompiles_of_same_definition": repeated,
+        "successful_compiles_compared_after_an_interrupted_compile": after_intr,
         "mismatching_fields": len(bad),
         "side_observation_tracing_state": {
             "session_steps_with_tracing_active_true_afterwards": leaks,
